@@ -57,3 +57,24 @@ static void h_page(bool is_mmap) {
 }
 void h_c04_page_mmap(void) { h_page(true); }
 void h_c04_page_fread(void) { h_page(false); }
+
+/* ---- carquet_read_dictionary_page under its contract (contracts/page_reader.ovl) -------------- */
+void h_c04_read_dictionary_page(void) {
+  carquet_column_reader_t *r = NULL;
+  if (nondet_bool()) {
+    r = pg_block(sizeof(*r));
+    carquet_column_reader_t r0; *r = r0;
+    r->has_dictionary = false; r->dictionary_data = NULL; r->dictionary_offsets = NULL;
+  }
+  size_t page_size = nondet_size_t();
+  __CPROVER_assume(page_size <= ((size_t)1 << 31));
+  uint8_t *page = nondet_bool() ? pg_block(page_size) : NULL;
+  parquet_dictionary_page_header_t *h = NULL;
+  if (nondet_bool()) { h = pg_block(sizeof(*h)); parquet_dictionary_page_header_t h0; *h = h0; }
+  carquet_error_t *err = NULL;
+  if (nondet_bool()) { err = pg_block(sizeof(*err)); err->code = CARQUET_OK; }
+  carquet_status_t st = carquet_read_dictionary_page(r, page, page_size, h, err);
+  CQV_CANARY("read_dictionary_page returns");
+  if (st == CARQUET_OK) CQV_CANARY("read_dictionary_page can succeed");
+  if (st == CARQUET_OK && r->type == CARQUET_PHYSICAL_BYTE_ARRAY && h->num_values > 1) CQV_CANARY("byte-array dictionary with several entries accepted");
+}
